@@ -71,7 +71,14 @@ def norm(enc, reader, v, cfg, top=False):
                 items.append((kk, norm(enc, reader, x, cfg)))
         return type(v)(items) if not top else PVLModule(items)
     if isinstance(v, Quantity):
-        return Quantity(norm(enc, reader, v.value, cfg), v.units)
+        u = v.units
+        if enc == "PDS3" and isinstance(u, str) and "\t" in u:
+            # the documented tab_replace option of the PDS3 encoder (a tab is not a PDS3 character): in a string it
+            # disappears in the reader's white-space folding, in a units expression it is visible
+            n = encio.effective_cfg(enc, cfg)["tab_replace"]
+            if n > 0:
+                u = u.replace("\t", " " * n)
+        return Quantity(norm(enc, reader, v.value, cfg), u)
     if isinstance(v, list):
         return [norm(enc, reader, x, cfg) for x in v]
     if isinstance(v, (set, frozenset)):
